@@ -983,4 +983,205 @@ Proof. intros Hc Hk I L H. unfold step_gate in H.
   - injection H as <-. exact L4.
 Qed.
 
+
+(* ---------- barrier / measurement / reset, with the repair ---------- *)
+Lemma step_barrier_linv pre cur o rest hint st st' :
+  c = pre ++ (cur, o) :: rest -> okind o <> KGate ->
+  inv pre st -> linv ((cur, o) :: rest) st ->
+  step_barrier true cur o rest hint st = inl st' -> linv rest st'.
+Proof. intros Hc Hk I L H. unfold step_barrier in H.
+  destruct (ctx_facts c Hord pre cur o rest Hc) as [Hp Hs].
+  assert (Hn : forall q n, In q (oloc o) -> next_cycle q ((cur, o) :: rest) = Some n -> n = cur)
+    by (intros q n; apply next_here).
+  destruct (same_set hint (overlap_ids st (oloc o))) eqn:SS; simpl in H; [|discriminate].
+  apply same_set_incl in SS as (_ & SS2 & _).
+  destruct (close_barrier (oloc o) cur hint st) as [st1|] eqn:CB; [|discriminate].
+  destruct (close_barrier_inv k ncyc c Hord Hcyc Hnd Hne pre ((cur, o) :: rest) _ _ _ _ _ Hc Hp Hs I CB) as [I1 A1].
+  assert (L1 : linv ((cur, o) :: rest) st1) by (exact (close_barrier_linv pre _ _ _ _ _ _ Hc Hp Hs Hn I L CB)).
+  assert (Hnone : forall q, In q (oloc o) -> nth q (act st1) None = None).
+  { intros q Hq. rewrite A1. apply act_cleared; auto.
+    destruct (nth q (act st) None) as [id|] eqn:E0; auto. right. exists id. split; auto.
+    apply SS2. apply overlap_ids_spec. eauto. }
+  pose proof (barrier_bin_inv k c Hord Hnd Hne pre cur o rest st1 Hc Hk I1 Hnone) as I2.
+  exact (barrier_block_linv pre cur o rest st1 st' Hc I1 L1 Hnone I2 H). Qed.
+
+(* ---------- the main loop ---------- *)
+Lemma run_ops_full fx : forall ops pre hints st st',
+  c = pre ++ ops ->
+  (fx = true \/ forall x, In x ops -> okind (snd x) = KGate) ->
+  inv pre st -> linv ops st -> run_ops k fx ncyc ops hints st = inl st' -> inv c st' /\ linv [] st'.
+Proof. induction ops as [|[cur o] rest IH]; simpl; intros pre hints st st' Hc Hfx I L H.
+  - inversion H; subst. rewrite app_nil_r in *. auto.
+  - destruct hints as [|h hs]; [discriminate|].
+    assert (Hc' : c = (pre ++ [(cur, o)]) ++ rest) by (rewrite <- app_assoc; exact Hc).
+    assert (Hfx' : fx = true \/ forall x, In x rest -> okind (snd x) = KGate).
+    { destruct Hfx as [Hfx|Hfx]; auto. }
+    destruct (is_gate o) eqn:Gt.
+    + destruct (step_gate k ncyc cur o h st) as [st1|] eqn:S1; [|discriminate].
+      apply kind_is_gate_spec in Gt.
+      apply (IH (pre ++ [(cur, o)]) hs st1 st'); auto.
+      * eapply step_gate_inv; eauto.
+      * eapply step_gate_linv; eauto.
+    + assert (Hk : okind o <> KGate) by (intros E0; apply kind_is_gate_spec in E0; congruence).
+      destruct Hfx as [->|Hfx].
+      2:{ exfalso. apply Hk. apply (Hfx (cur, o)). left; reflexivity. }
+      destruct (step_barrier true cur o rest h st) as [st1|] eqn:S1; [|discriminate].
+      apply (IH (pre ++ [(cur, o)]) hs st1 st'); auto.
+      * eapply step_barrier_inv; eauto.
+      * eapply step_barrier_linv; eauto.
+Qed.
+
+(* ---------- closing the remaining active bins ---------- *)
+Lemma close_all_linv : forall n q0 st st',
+  inv c st -> linv [] st -> close_all_from n q0 ncyc st = inl st' -> linv [] st'.
+Proof. induction n as [|n IH]; simpl; intros q0 st st' I L H.
+  - inversion H; subst. auto.
+  - match type of H with (match ?e with inl _ => _ | inr _ => _ end) = _ => destruct e as [st1|] eqn:E1; [|discriminate] end.
+    assert (S1 : inv c st1 /\ linv [] st1).
+    { destruct (nth q0 (act st) None) as [id|] eqn:Eq.
+      - destruct (getb id (bins st)) as [b|] eqn:G; [|discriminate].
+        destruct (close_bin id (bqudits b) ncyc st) as [[st2 fl]|] eqn:C; [|discriminate].
+        inversion E1; subst st1. simpl.
+        assert (Hc0 : c = c ++ []) by (rewrite app_nil_r; reflexivity).
+        split.
+        + eapply (close_bin_inv k ncyc c Hord Hcyc Hnd Hne c [] id (bqudits b) ncyc st st2 fl); eauto.
+          intros _ _ _ [].
+        + refine (close_bin_linv c [] id (bqudits b) ncyc st st2 fl Hc0 _ _ I L C).
+          * intros q _ x Hx _. apply Hcyc; auto.
+          * intros q n0 _ Hd. discriminate.
+      - inversion E1; subst st1. auto. }
+    destruct S1 as [I1 L1]. eapply IH; eauto. Qed.
+
+(* ---------- no bin is left pending ---------- *)
+Lemma process_pending_done : forall fuel st st',
+  process_pending fuel ncyc st = inl st' -> find_ready (bins st') (dl st') (pend st') = inl None.
+Proof. induction fuel as [|f IH]; simpl; intros st st' H; [discriminate|].
+  destruct (find_ready (bins st) (dl st) (pend st)) as [[b|]|] eqn:F; [| |discriminate].
+  - eapply IH; eauto. - inversion H; subst. exact F. Qed.
+
+Lemma find_ready_none bs d : forall ps,
+  find_ready bs d ps = inl None -> forall id, In id ps -> exists b, getb id bs = Some b /\ ready d b = false.
+Proof. induction ps as [|x ps IH]; simpl; intros H id Hid; [destruct Hid|].
+  destruct (getb x bs) as [b|] eqn:G; [|discriminate].
+  destruct (ready d b) eqn:R; [discriminate|].
+  destruct Hid as [<-|Hid]; eauto. Qed.
+
+Lemma min_exists bs :
+  NoDup (ids bs) -> (forall i, ~ reach bs i i) ->
+  forall n visited x,
+  length (ids bs) - length visited <= n -> NoDup visited -> incl visited (ids bs) ->
+  In x bs -> bslots x <> [] -> In (bid x) visited ->
+  (forall v, In v visited -> v = bid x \/ reach bs (bid x) v) ->
+  exists m, In m bs /\ bslots m <> [] /\ forall a, In a bs -> precb a m = false.
+Proof. intros Hnd' J1. induction n as [|n IH]; intros visited x Hlen Hv Hincl Hx Hsx Hin Hreach.
+  - (* all bins visited: some bin must be minimal anyway *)
+    destruct (existsb (fun a => precb a x) bs) eqn:Ex.
+    + exfalso. apply existsb_exists in Ex as (a & Ha & Pa).
+      assert (Hnv : ~ In (bid a) visited).
+      { intros Hv'. destruct (Hreach _ Hv') as [E0|R].
+        - apply (J1 (bid x)). apply t_step. exists a, x. repeat split; auto.
+        - apply (J1 (bid x)). eapply t_trans; [exact R|]. apply t_step. exists a, x. auto. }
+      assert (NoDup (bid a :: visited)) by (constructor; auto).
+      assert (incl (bid a :: visited) (ids bs)).
+      { intros v [<-|Hv']; auto. apply in_map; auto. }
+      pose proof (NoDup_incl_length H H0). simpl in H1. lia.
+    + exists x. repeat split; auto. intros a Ha. destruct (precb a x) eqn:Pa; auto.
+      assert (existsb (fun a => precb a x) bs = true) by (apply existsb_exists; eauto). congruence.
+  - destruct (existsb (fun a => precb a x) bs) eqn:Ex.
+    + apply existsb_exists in Ex as (a & Ha & Pa).
+      assert (Eax : E bs (bid a) (bid x)) by (exists a, x; auto).
+      assert (Hnv : ~ In (bid a) visited).
+      { intros Hv'. destruct (Hreach _ Hv') as [E0|R].
+        - apply (J1 (bid x)). apply t_step. rewrite <- E0 at 1. exact Eax.
+        - apply (J1 (bid x)). eapply t_trans; [exact R|]. apply t_step. exact Eax. }
+      assert (Hsa : bslots a <> []).
+      { apply precb_spec in Pa as (sa & _ & _ & Hsa & _). intros E0. rewrite E0 in Hsa. destruct Hsa. }
+      apply (IH (bid a :: visited) a); auto.
+      * assert (NoDup (bid a :: visited)) by (constructor; auto).
+        assert (incl (bid a :: visited) (ids bs)).
+        { intros v [<-|Hv']; auto. apply in_map; auto. }
+        pose proof (NoDup_incl_length H H0). simpl in *. lia.
+      * constructor; auto.
+      * intros v [<-|Hv']; auto. apply in_map; auto.
+      * left; reflexivity.
+      * intros v [<-|Hv']; auto. right. destruct (Hreach _ Hv') as [->|R].
+        -- apply t_step. exact Eax.
+        -- eapply t_trans; [apply t_step; exact Eax| exact R].
+    + exists x. repeat split; auto. intros a Ha. destruct (precb a x) eqn:Pa; auto.
+      assert (existsb (fun a => precb a x) bs = true) by (apply existsb_exists; eauto). congruence. Qed.
+
+Lemma no_pending st :
+  inv c st -> linv [] st -> (forall q, nth q (act st) None = None) ->
+  find_ready (bins st) (dl st) (pend st) = inl None -> pend st = [].
+Proof. intros I L Hnone F. destruct (pend st) as [|id ps] eqn:Ep; auto. exfalso.
+  destruct (find_ready_none _ _ _ F id) as (b0 & G0 & R0); [first [rewrite Ep; left; reflexivity| left; reflexivity]|]. try rewrite Ep in F.
+  destruct I as [i_nd0 _ _ _ i_dyn0 _ _ _ _ _ _ _]. destruct L as [D3 Dp D5 J1 J2'].
+  apply getb_In in G0 as [Hb0 _].
+  assert (Hs0 : bslots b0 <> []).
+  { intros E0. unfold ready in R0. rewrite E0 in R0. discriminate. }
+  destruct (min_exists (bins st) i_nd0 J1 (length (ids (bins st))) [bid b0] b0) as (m & Hm & Hsm & Hmin); auto.
+  - simpl. lia.
+  - constructor; auto. constructor.
+  - intros v [<-|[]]. apply in_map; auto.
+  - left; reflexivity.
+  - intros v [<-|[]]. auto.
+  - (* the minimal bin is ready *)
+    assert (Rm : ready (dl st) m = true).
+    { unfold ready. apply forallb_forall. intros s Hs. apply Z.eqb_eq.
+      destruct (Dp m s Hm Hs) as [D|(a & sa & e & Ha & Hsa & Eq & Ee & He)]; auto.
+      exfalso. assert (precb a m = true); [|rewrite (Hmin a Ha) in H; discriminate].
+      apply precb_spec. exists sa, s, e. repeat split; auto. lia. }
+    (* and it is pending *)
+    destruct (i_dyn0 m Hm) as [D1 D2]. destruct D2 as [D2|[D2|D2]]; [| |contradiction].
+    + apply any_active_ex in D2 as [q Aq]. specialize (D1 q Aq). rewrite Hnone in D1. discriminate.
+    + try rewrite Ep in D2. destruct (find_ready_none _ _ _ F (bid m) D2) as (m' & Gm & Rm').
+      apply getb_In in Gm as [Hm' Em']. assert (m' = m) by (eapply nodup_ids_eq; eauto). subst m'. congruence. Qed.
+
 End Live.
+
+Lemma init_linv nq ncyc c : wf_input nq ncyc c -> linv c (init nq c).
+Proof. intros (Hord & Hcyc & Hnd & Hne & Hq). constructor; simpl; try (intros; contradiction).
+  - intros q n Hn. right; left.
+    assert (Hlt : q < nq).
+    { pose proof (next_cycle_spec q c) as NC. rewrite Hn in NC. destruct NC as (r1 & y & r2 & Er & _ & Ty & _).
+      apply (Hq y); [rewrite Er; apply in_or_app; right; left; auto|]. unfold touch in Ty. apply memb_In; exact Ty. }
+    rewrite nth_map_seq by exact Hlt. unfold first_cycle. rewrite Hn. reflexivity.
+  - intros i R. destruct (reach_ends _ _ _ R) as [(a0 & [] & _) _].
+Qed.
+
+(* Liveness: with the repair (fx = true), or on circuits without barrier-like operations,
+   QuickPartitioner's final `len(pending_bins) != 0` test can never fire. *)
+Theorem quick_all_emitted k fx nq ncyc c hints st2 :
+  wf_input nq ncyc c ->
+  (fx = true \/ forall x, In x c -> okind (snd x) = KGate) ->
+  quick_state k fx nq ncyc c hints = inl st2 -> pend st2 = [].
+Proof. intros W Hfx H. pose proof (init_inv k nq ncyc c W) as I0. pose proof (init_linv nq ncyc c W) as L0.
+  destruct W as (Hord & Hcyc & Hnd & Hne & Hq).
+  unfold quick_state in H.
+  destruct (run_ops k fx ncyc c hints (init nq c)) as [st|] eqn:R; [|discriminate].
+  destruct (close_all_from (length (act st)) 0 ncyc st) as [st1|] eqn:C; [|discriminate].
+  assert (IL : inv k c c st /\ linv [] st).
+  { eapply (run_ops_full k ncyc c) with (pre := []); eauto. reflexivity. }
+  destruct IL as [I L].
+  destruct (close_all_inv k ncyc c Hord Hcyc Hnd Hne (length (act st)) 0 st st1 I) as (I1 & Z1 & L1); auto.
+  { intros q Hq0. lia. }
+  assert (Ll1 : linv [] st1) by (eapply (close_all_linv k ncyc c) with (st := st) (n := length (act st)) (q0 := 0); eauto).
+  unfold process_pending_bins in H.
+  destruct (process_pending_inv k ncyc c Hord Hcyc c _ _ _ I1 H) as (I2 & A2 & _ & _).
+  assert (Ll2 : linv [] st2).
+  { eapply (process_pending_linv k ncyc c) with (pre := c) (st := st1); eauto. rewrite app_nil_r; reflexivity. }
+  pose proof (process_pending_done ncyc _ _ _ H) as F.
+  eapply (no_pending k c); eauto.
+  intros q. rewrite A2. destruct (Nat.lt_ge_cases q (length (act st))) as [Hlt|Hge].
+  - apply Z1. simpl. exact Hlt. - apply nth_overflow. rewrite L1. exact Hge. Qed.
+
+(* hence: once the sweep itself went through, run() returns, and what it returns is a good partition *)
+Theorem quick_returns k fx nq ncyc c hints st2 :
+  wf_input nq ncyc c ->
+  (fx = true \/ forall x, In x c -> okind (snd x) = KGate) ->
+  quick_state k fx nq ncyc c hints = inl st2 ->
+  quick k fx nq ncyc c hints = inl (out st2) /\
+  good_partition k (map snd c) (out st2) /\ all_gates_blocked (out st2).
+Proof. intros W Hfx H. assert (E0 : quick k fx nq ncyc c hints = inl (out st2)).
+  { unfold quick. rewrite H. rewrite (quick_all_emitted _ _ _ _ _ _ _ W Hfx H). reflexivity. }
+  split; auto. eapply quick_correct_partial; eauto. Qed.
